@@ -517,14 +517,14 @@ def candidate_actions(cfg: dict, oob: bool = True) -> list:
     return sorted(res)
 
 
-def exact_dones_limit(cfg: dict) -> int:
+def exact_dones_limit(big_reward_seen: bool) -> int:
     """How many episode ends the float32 EMA of the logging statistics stays exact for (fixed point, SD = 4^8): the k-th update has
-    denominator 4^k, so |return| * 4^k must fit 24 bits.  8 for the small rewards of the tables; 4 where a transition can pay the
-    poison reward (-99 per step: out-of-grid actions reaching the base environment under a one-sided declared box)."""
-    def flat(x):
-        return [z for y in x for z in flat(y)] if isinstance(x, list) else [x]
-    rmax = max((abs(r) for r in flat(cfg["R"])), default=0)
-    return 8 if rmax <= 8 and not cfg.get("aopen") else 4
+    denominator 4^k, so |return| * 4^k must fit 24 bits.  8 for the small rewards of the tables; 4 once a transition has paid the
+    poison reward (-99 per step: an out-of-grid action reached the base environment)."""
+    return 4 if big_reward_seen else 8
+
+
+BIG_REWARD = 50
 
 
 def vary(rng: random.Random, cfg: dict) -> dict:
